@@ -143,6 +143,43 @@ fn segments(stream: &[u8], cuts: &[usize]) -> Vec<Vec<u8>> {
 struct TcpObs {
     written: Vec<u8>,
     result_ok: bool,
+    /// Blocking provider only: a message whose first read did not get the
+    /// full read timeout (description), if any.
+    short_first_timeout: Option<String>,
+}
+
+/// The documented time a client has to send one complete message
+/// (io::READ_MESSAGE_TIMEOUT; private in the crate, stated in its docs).
+const READ_MESSAGE_TIMEOUT: Duration = Duration::from_secs(5);
+
+/// Every message must start with the full read timeout: the first
+/// set_read_timeout of the connection and the first one after each response
+/// must be exactly READ_MESSAGE_TIMEOUT ("sent ... within the read timeout").
+fn first_timeouts_ok(log: &[(char, usize)], timeouts: &[Option<Duration>]) -> Option<String> {
+    let mut expect_full = true;
+    let mut msg = 0;
+    for (k, i) in log {
+        match k {
+            'T' => {
+                if expect_full {
+                    if timeouts[*i] != Some(READ_MESSAGE_TIMEOUT) {
+                        return Some(format!("message {msg}: first read timeout is {:?}, not {:?}", timeouts[*i], READ_MESSAGE_TIMEOUT));
+                    }
+                    expect_full = false;
+                } else if timeouts[*i].map_or(true, |t| t > READ_MESSAGE_TIMEOUT) {
+                    return Some(format!("message {msg}: read timeout {:?} exceeds {:?}", timeouts[*i], READ_MESSAGE_TIMEOUT));
+                }
+            }
+            'W' => {
+                if !expect_full {
+                    msg += 1;
+                }
+                expect_full = true;
+            }
+            _ => {}
+        }
+    }
+    None
 }
 
 /// What the oracle expects for a case: the exact output, or (for failing
@@ -204,8 +241,9 @@ fn run_tcp_blocking(server: &Arc<Server<srv::Cat>>, segs: &[Vec<u8>], dev: &Dev,
     let r = verif_blocking::tcp(&pool, server, sock, ip);
     group.shut_down();
     group.await_shutdown();
-    let written = script.lock().unwrap().written.clone();
-    TcpObs { written, result_ok: r.is_ok() }
+    let sc = script.lock().unwrap();
+    let short_first_timeout = first_timeouts_ok(&sc.call_log, &sc.read_timeouts_set);
+    TcpObs { written: sc.written.clone(), result_ok: r.is_ok(), short_first_timeout }
 }
 
 fn read_ev(ev: &str) -> ReadEv {
@@ -265,7 +303,7 @@ fn run_tcp_tokio(rt: &tokio::runtime::Runtime, server: &Arc<Server<srv::Cat>>, s
     let r = rt.block_on(async move { verif_tokio::tcp(handle, &server, sock, ip).await });
     drop(controller);
     let written = script.lock().unwrap().written.clone();
-    TcpObs { written, result_ok: r.is_ok() }
+    TcpObs { written, result_ok: r.is_ok(), short_first_timeout: None }
 }
 
 // ----------------------------------------------------------------- UDP
@@ -441,6 +479,10 @@ fn check_tcp_case(server: &Arc<Server<srv::Cat>>, rt: &tokio::runtime::Runtime, 
         j["observed_hex"] = json!(hex(&obs.written));
         let key = if obs.written.len() > exp_out.len() { "tcp-extra-or-wrong-output" } else if exp_out.starts_with(&obs.written) { "tcp-missing-output" } else { "tcp-wrong-output" };
         out.violations.push((key.to_string(), j));
+    } else if let Some(why) = &obs.short_first_timeout {
+        let mut j = case.to_json(menu);
+        j["what"] = json!(why);
+        out.violations.push(("tcp-message-not-given-full-read-timeout".to_string(), j));
     } else if must_ok && !obs.result_ok {
         let mut j = case.to_json(menu);
         j["what"] = json!("connection handler returned an I/O error although no I/O error was injected");
